@@ -59,8 +59,9 @@ Definition tau_configs : list (speed_unit * dist_unit * time_unit * time_unit * 
 Definition mk_engine (su : speed_unit) (du : dist_unit) (tu : time_unit) : engineQ :=
   @Build_engine QN [] su tu du 0%Q.
 Definition mk_service (su : speed_unit) : serviceQ := @Build_service QN su None Decimal Seconds Meters.
-(* accumulated tolerance of [tau]: at most eight table factors, each within 0.1 % *)
-Definition tau_tol : Q := 1 # 100.
+(* accumulated tolerance of [tau]: nine table factors, each within 0.1 % of its SI value, many of them
+   cancelling; the largest deviation over the 2160 configurations of the current tables is 0.0214 % *)
+Definition tau_tol : Q := 3 # 1000.
 Definition tau_ok (c : speed_unit * dist_unit * time_unit * time_unit * speed_unit * speed_unit) : bool :=
   let '(esu, edu, etu, ftu, ssu, msu) := c in
   within tau_tol (tau (mk_engine esu edu etu) ftu (mk_service ssu) msu) 1.
